@@ -48,6 +48,9 @@ RequiredParen(k) == LET e == E[k] IN
   \/ (e.op = "ins" /\ e.tok = ")" /\ Same(k, LAMBDA x : x.op = "ins" /\ x.cls = "floatdot"))
   \/ (e.op = "ins" /\ e.cls = "floatdot" /\ Same(k, LAMBDA x : x.op = "del" /\ x.cls = "num"))
   \/ (e.op = "del" /\ e.cls = "num" /\ Same(k, LAMBDA x : x.op = "ins" /\ x.cls = "floatdot"))
+  (* the other direction of the respelling (float_literal_trailing_zero: `1.` -> `1.0`) *)
+  \/ (e.op = "del" /\ e.cls = "floatdot" /\ Same(k, LAMBDA x : x.op = "ins" /\ x.cls = "num"))
+  \/ (e.op = "ins" /\ e.cls = "num" /\ Same(k, LAMBDA x : x.op = "del" /\ x.cls = "floatdot"))
   \/ (e.op = "del" /\ e.tok = "." /\
         \E j \in 1 .. Len(E) : E[j].op = "ins" /\ E[j].cls = "floatdot"
                                 /\ E[j].pos <= e.pos /\ e.pos <= E[j].pos + 1)
